@@ -38,6 +38,7 @@ structure MonSec where
   born : Content
   closing : Bool := false        -- a Close has been attempted
   closed : Bool := false         -- a Close has returned nil
+  prot : Option Prot := none     -- protection last observed
 deriving Repr, Inhabited
 
 structure Mon where
@@ -49,6 +50,11 @@ deriving Repr, Inhabited
 
 def Page.protected (pg : Page) (born : Content) (known : Bool) : Bool :=
   pg.mapped && pg.locked && pg.prot == .none && (!known || pg.content == born)
+
+def MonSec.see (ms : MonSec) (v : View) : MonSec :=
+  match v.page with
+  | some pg => { ms with prot := some pg.prot }
+  | none => ms
 
 /-- clauses about a creation. -/
 def createClauses (v : View) (born : Content) (shadow : Bool) : List String :=
@@ -65,6 +71,12 @@ def createClauses (v : View) (born : Content) (shadow : Bool) : List String :=
      | none => []) ++
   (if v.res != .ok && !anyFailed v.evs && shadow then ["error_without_fault"] else [])
 
+/-- the operation contains a failed attempt to open the secret (`Protect(ReadOnly)` failed). -/
+def failedOpen : List Ev → Bool
+  | [] => false
+  | .call c :: t => (c.prim == .protect .ro && !c.ok) || failedOpen t
+  | _ :: t => failedOpen t
+
 /-- clauses about a reader operation (WithBytes / WithBytesFunc / Reader.Read) on secret `ms`. -/
 def readClauses (v : View) (ms : MonSec) : List String :=
   (if ms.closing then
@@ -78,10 +90,13 @@ def readClauses (v : View) (ms : MonSec) : List String :=
         (if v.seen == some (.bytes ms.born) then [] else ["reader_sees_original"])
       else []) ++
      -- a failed attempt to open the secret leaves it inaccessible with the reader count unchanged
-     (if v.res == .err && !v.called then
+     -- (inaccessible = as it was before the attempt; a page left readable by an earlier failed
+     --  release stays as that release left it)
+     (if failedOpen v.evs then
+        (if v.called then ["access_fail_neutral:callback-ran"] else []) ++
         (if v.counter != 0 then ["access_fail_neutral:counter"] else []) ++
         (match v.page with
-         | some pg => if pg.prot == .none then [] else ["access_fail_neutral:prot"]
+         | some pg => if pg.prot == .none || some pg.prot == ms.prot then [] else ["access_fail_neutral:prot"]
          | none => [])
       else [])) ++
   (if v.res == .ok && !ms.closed then
@@ -110,12 +125,12 @@ def Mon.step (m : Mon) (shadow : Bool) (op : Op) (v : View) : Mon × List String
   | .new _ _ | .rand _ _ =>
     let born := match op with | .rand _ _ => Content.rand m.nextId | _ => Content.orig m.nextId
     let m1 := { m with nextId := m.nextId + 1 }
-    let m2 := if v.res == .ok then { m1 with secs := m1.secs ++ [{ born := born }], live := m1.live + 1 } else m1
+    let m2 := if v.res == .ok then { m1 with secs := m1.secs ++ [MonSec.see { born := born } v], live := m1.live + 1 } else m1
     (m2, createClauses v born shadow ++ commonClauses v m2.live)
   | .withB sid _ | .withF sid _ =>
     match m.secs[sid]? with
     | none => (m, ["bad-op"])
-    | some ms => (m, readClauses v ms ++ commonClauses v m.live)
+    | some ms => ({ m with secs := m.secs.set sid (ms.see v) }, readClauses v ms ++ commonClauses v m.live)
   | .newReader sid => ({ m with readers := m.readers ++ [sid] }, [])
   | .read rid _ =>
     match m.readers[rid]? with
@@ -125,7 +140,7 @@ def Mon.step (m : Mon) (shadow : Bool) (op : Op) (v : View) : Mon × List String
       | none => (m, ["bad-op"])
       | some ms =>
         -- a Read at EOF still opens the secret; what it copies is compared by the driver
-        (m, (readClauses { v with seen := if v.res == .ok && v.seen == none then some (.bytes ms.born) else v.seen } ms).filter (· != "inside_readonly")
+        ({ m with secs := m.secs.set sid (ms.see v) }, (readClauses { v with seen := if v.res == .ok && v.seen == none then some (.bytes ms.born) else v.seen } ms).filter (· != "inside_readonly")
             ++ commonClauses v m.live)
   | .close sid =>
     match m.secs[sid]? with
